@@ -149,6 +149,7 @@ func (ex *Exec) ResetRun() {
 	ex.MaxUnroll = 64
 	ex.Steps = 0
 	ex.Events = nil
+	ex.digitMemo = nil
 	ex.randN = 0
 }
 
